@@ -67,13 +67,14 @@ var hostileJS = []jsArg{{T: "u"}, {T: "null"}, {T: "nan"}, {T: "inf"}, {T: "ninf
 
 func jsDigits(rng *gen.RNG) string {
 	if rng.Intn(8) == 0 {
-		return gen.Pick(rng, []string{"7", "06", "six", "11", "0", "1"})
+		// unknown spellings, among them words that mean something to a JavaScript object or number parser
+		return gen.Pick(rng, []string{"7", "06", "six", "11", "0", "1", "constructor", "__proto__", "toString", "valueOf", "hasOwnProperty", "prototype", "length", "undefined", "null", "NaN", "6.0", "0x6", " 6", "true"})
 	}
 	return gen.Pick(rng, []string{"6", "8", "9", "10"})
 }
 func jsAlgo(rng *gen.RNG) string {
 	if rng.Intn(8) == 0 {
-		return gen.Pick(rng, []string{"sha1", "SHA384", "MD5", "x"})
+		return gen.Pick(rng, []string{"sha1", "SHA384", "MD5", "x", "constructor", "__proto__", "toString", "valueOf", "hasOwnProperty", "prototype", "length", "undefined", "null", "SHA1 ", "Sha256"})
 	}
 	return gen.Pick(rng, []string{"SHA1", "SHA256", "SHA512"})
 }
@@ -259,10 +260,19 @@ func c20Cases(c *Ctx, n int) []jsCase {
 				case "validateHOTP":
 					args[5] = nArg(float64(11 + rng.Intn(100)))
 					note = "skew out of range"
+					if rng.Bool() {
+						// out of range, but equal to an admissible value modulo a machine word
+						args[5] = nArg(float64(rng.Intn(11)) + gen.Pick(rng, []float64{1 << 8, 1 << 16, 1 << 31, 1 << 32, 3 * (1 << 32), 1 << 40, 1 << 53}))
+						note = "skew out of range, congruent to an admissible one modulo a power of two"
+					}
 				case "validateTOTP":
 					if rng.Bool() {
 						args[5] = nArg(float64(11 + rng.Intn(100)))
 						note = "skew out of range"
+						if rng.Bool() {
+							args[5] = nArg(float64(rng.Intn(11)) + gen.Pick(rng, []float64{1 << 8, 1 << 16, 1 << 31, 1 << 32, 3 * (1 << 32), 1 << 40, 1 << 53}))
+							note = "skew out of range, congruent to an admissible one modulo a power of two"
+						}
 					} else {
 						args[6] = nArg(0)
 						note = "period 0"
@@ -270,6 +280,10 @@ func c20Cases(c *Ctx, n int) []jsCase {
 				case "generateTOTP":
 					args[4] = nArg(gen.Pick(rng, []float64{0, 3601, 1e9}))
 					note = "period out of range"
+					if rng.Bool() {
+						args[4] = nArg(float64(1+rng.Intn(3600)) + gen.Pick(rng, []float64{1 << 16, 1 << 31, 1 << 32, 3 * (1 << 32), 1 << 40, 1 << 52}))
+						note = "period out of range, congruent to an admissible one modulo a power of two"
+					}
 				case "generateOTPURL":
 					args[0] = sArg("xotp")
 					note = "unknown otp type"
